@@ -258,17 +258,39 @@ func (b *c20Builder) populate(v reflect.Value, kpath, cpath string) {
 
 // tunnelAgentConfig is the documented bootstrap config of the tunnel agent with an inline tls_context.
 func (b *c20Builder) tunnelAgentConfig(kind, cpath string) json.RawMessage {
+	ctx := func(sub, keyName string) map[string]interface{} {
+		return map[string]interface{}{
+			"status":     true,
+			"cert_chain": "verif-cert",
+			keyName:      b.keyText(b.marker(kind, cpath+sub)),
+		}
+	}
 	obj := map[string]interface{}{
 		"enable":           false, // parsed, but no agent goroutines are started
 		"connection_num":   1,
 		"cluster":          "base-c",
 		"hosting_listener": "base-l",
 		"server_list":      []string{"127.0.0.1:1"},
-		"tls_context": map[string]interface{}{
-			"status":      true,
-			"cert_chain":  "verif-cert",
-			"private_key": b.keyText(b.marker(kind, cpath)),
-		},
+	}
+	// An extension's configuration is an opaque JSON document: the consumed context, contexts under differently cased keys
+	// (encoding/json matches field names case-insensitively, so MOSN does read them) and further context objects nested in
+	// sibling values and lists (several agents / endpoints each with their own context).
+	switch b.rng.Intn(4) {
+	case 0:
+		obj["tls_context"] = ctx("", "private_key")
+	case 1:
+		obj[b.rng.PickStr("tls_context", "TLS_Context", "Tls_context")] = ctx("", b.rng.PickStr("Private_Key", "PRIVATE_KEY", "private_Key"))
+	case 2:
+		obj["tls_context"] = ctx("", "private_key")
+		var agents []interface{}
+		for i := 0; i < 2+b.rng.Intn(3); i++ {
+			agents = append(agents, map[string]interface{}{"name": fmt.Sprintf("agent-%d", i), "tls_context": ctx(fmt.Sprintf(".agents[%d]", i), "private_key")})
+		}
+		obj["agents"] = agents
+	default:
+		obj["tls_context"] = ctx("", "private_key")
+		obj["primary"] = map[string]interface{}{"tls_context": ctx(".primary", "private_key")}
+		obj["standby"] = map[string]interface{}{"endpoint": map[string]interface{}{"tls_context": ctx(".standby.endpoint", "private_key")}, "weight": 1}
 	}
 	raw, _ := json.Marshal(obj)
 	return raw
